@@ -38,7 +38,9 @@ ReDefined(ev) == Known(ev) /\ FPos(ev.E) /\ FPos(Density(ev)) /\ \A i \in 1..Len
 ImDefined(ev) == Known(ev) /\ FPos(ev.E) /\ FPos(Density(ev)) /\ \A i \in 1..Len(ev.el) : POk(ev.cs[i])
 Delta(ev) == FDiv(FMul(Density(ev), FSum([i \in 1..Len(ev.el) |-> FDiv(FMul(FMul(ev.mf[i], KDerived), FAdd(FI(ev.el[i]), PV(ev.fi[i]))), PV(ev.aw[i]))])), FSq(ev.E))
 Beta(ev) == FDiv(FMul(FMul(Density(ev), HcOver4Pi), FSum([i \in 1..Len(ev.el) |-> FMul(ev.mf[i], PV(ev.cs[i]))])), ev.E)
-RelC == F("3e-6")          \* the code's literal constants carry 9-12 digits of older CODATA values
+\* the code's literal constant K carries 12 digits of an older CODATA vintage than the header constants it is derived from here: the two differ by
+\* 9e-8 on this tree, and a refresh of the header constants alone (N_A, hc, r_e between CODATA 2010 and 2018) moves the derived K by < 3e-7
+RelC == F("1e-6")
 RefrComplaints(ev) ==
   (IF ReDefined(ev) THEN chk(POk(ev.re) /\ FClose(PV(ev.re), FSub(One, Delta(ev)), Zero, FAdd(FMul(RelC, FAbs(Delta(ev))), F("4.5e-16"))), "Refractive_Index_Re differs from 1 - rho sum w K (Z+f')/A / E^2")
    ELSE chk(~POk(ev.re) /\ FEq(PV(ev.re), Zero), "Refractive_Index_Re did not fail (unknown compound, E <= 0, density <= 0 without NIST density, or failing element)"))
